@@ -706,7 +706,16 @@ pub fn seal_with(pre: &Snap, action: Option<ProposerAction>, lenient: bool) -> (
             continue;
         }
         let mut p = s.pools.get(k).copied().unwrap_or(PoolState { lefts: 0, rights: 0, price_accum: 0, liqs: 0 });
+        let liqs_before = p.liqs;
         let minted = pool_deposit(&mut p, a, b);
+        // the liquidity counter is a u128: a batch whose exact mint would take it past 2^128-1 cannot be recorded
+        // truthfully. What the chain does with such a batch is not stated by any property; since fix D18 the code
+        // leaves it unsettled, and the model follows (the independent evidence for that fix is C16's and C01's
+        // oracle over the real state, not this line).
+        if liqs_before > 0 && BigUint::from(liqs_before) + BigUint::from(minted) > BigUint::from(u128::MAX) {
+            tr.skipped.push("deposit batch that would overflow the liquidity counter");
+            continue;
+        }
         s.pools.insert(*k, p);
         // shares: proportional to sqrt(a_i * b_i), rounded down, never more than what was minted in total
         // weights sqrt(a_i)*sqrt(b_i), shares taken out of the sum of the weights (so they add up to <= minted)
